@@ -1057,4 +1057,3 @@ func (r *hRunner) record(n int, rng *rand.Rand) []*HEvent {
 	r.res.Count("recorded_traces", 1)
 	return out
 }
-
